@@ -13,6 +13,7 @@ import numpy as np
 from vmon import core, gen, contracts
 from vmon import refmodel as rm
 
+ANCHORS = ['evo/core/filters.py', 'evo/core/metrics.py', 'evo/core/geometry.py']
 LEVEL = "exploration"
 SHARDS = {"quick": 8, "thorough": 16}
 RULE = ("bounded-exhaustive exact grids (all step sequences in {0..3}^(n-1), n = 2..6 quick / 2..8 "
